@@ -93,16 +93,22 @@ func limitChunkMatches(file *zoekt.FileMatch, limit int) int {
 			// lines from it, where N is the difference between the line number
 			// of the end of the old last Range and that of the new last Range.
 			// This calculation is correct in the presence of both context lines
-			// and multiline Ranges, taking into account that Content never has
-			// a trailing newline.
+			// and multiline Ranges. The last line of Content is terminated by a
+			// newline unless it is the unterminated last line of the file; that
+			// terminator does not start another line, so it is skipped when
+			// counting and the shortened Content is terminated the same way.
 			n := cm.Ranges[len(cm.Ranges)-1].End.LineNumber - cm.Ranges[limit-1].End.LineNumber
 			if n > 0 {
-				for b := len(cm.Content) - 1; b >= 0; b-- {
+				end, terminator := len(cm.Content), 0
+				if end > 0 && cm.Content[end-1] == '\n' {
+					end, terminator = end-1, 1
+				}
+				for b := end - 1; b >= 0; b-- {
 					if cm.Content[b] == '\n' {
 						n -= 1
 					}
 					if n == 0 {
-						cm.Content = cm.Content[:b]
+						cm.Content = cm.Content[:b+terminator]
 						break
 					}
 				}
